@@ -280,8 +280,18 @@ func applyMulti(h tuple, second tuple, tx transform) (tuple, bool) {
 			t.R[j], t.zeroAt = zeroElem, "R"
 		}
 	case "splice_D":
+		if hx.G.Equal(t.D, second.D) {
+			t.class = "identical"
+		}
 		t.D = second.D
 	case "splice_IPA":
+		same := t.A.Cmp(second.A) == 0
+		for k := 0; k < 8 && same; k++ {
+			same = hx.G.Equal(t.L[k], second.L[k]) && hx.G.Equal(t.R[k], second.R[k])
+		}
+		if same {
+			t.class = "identical"
+		}
 		t.L, t.R, t.A = second.L, second.R, second.A
 	default:
 		panic(hx.Inconclusive{Msg: "unknown transform " + tx.Kind})
@@ -583,5 +593,5 @@ func TestC02(t *testing.T) {
 	s := hx.Start(t, "C02")
 	defer s.Finish()
 	s.Guard(func() { Cfg() })
-	c02Part.Run(s, hx.PerShard(hx.Pick(96, 2400)))
+	c02Part.Run(s, hx.PerShard(hx.Pick(240, 4800)))
 }
